@@ -592,7 +592,8 @@ func veq(a, b reflect.Value, path string) (string, string) {
 		}
 	case reflect.Ptr:
 		if a.IsNil() || b.IsNil() {
-			if a.IsNil() && b.IsNil() {
+			// the formats have a single null: a pointer chain that ends in nil is the same data as a nil pointer
+			if endsInNil(a) && endsInNil(b) {
 				return "", ""
 			}
 			return fail("nil pointer vs %v", short(a)+short(b))
@@ -617,6 +618,16 @@ func veq(a, b reflect.Value, path string) (string, string) {
 		}
 	}
 	return "", ""
+}
+
+func endsInNil(v reflect.Value) bool {
+	for v.Kind() == reflect.Ptr || v.Kind() == reflect.Interface {
+		if v.IsNil() {
+			return true
+		}
+		v = v.Elem()
+	}
+	return false
 }
 
 func veqSeq(a, b reflect.Value, path string) (string, string) {
